@@ -69,7 +69,16 @@ func (p *ProcessState) String() string {
 	}
 	return fmt.Sprintf("exit status %d", p.code)
 }
-func (p *ProcessState) Sys() any                  { return nil }
+// Sys: the wait status as Linux encodes it (exit code in bits 8-15, terminating signal in bits 0-6)
+func (p *ProcessState) Sys() any {
+	if p == nil {
+		return nil
+	}
+	if p.signalled {
+		return syscall.WaitStatus(p.sig & 0x7f)
+	}
+	return syscall.WaitStatus((p.code & 0xff) << 8)
+}
 func (p *ProcessState) SystemTime() time.Duration { return 0 }
 func (p *ProcessState) UserTime() time.Duration   { return 0 }
 
@@ -302,7 +311,16 @@ func (p *Process) Release() error { return nil }
 func (c *Cmd) String() string { return strings.Join(append([]string{c.Path}, c.Args[1:]...), " ") }
 
 // CombinedOutput mirrors exec.Cmd.CombinedOutput.
-func (c *Cmd) CombinedOutput() ([]byte, error) { return c.Output() }
+func (c *Cmd) CombinedOutput() ([]byte, error) {
+	if c.Stderr != nil {
+		return nil, errors.New("exec: Stderr already set")
+	}
+	out, err := c.Output()
+	if c.proc != nil {
+		out = append([]byte(c.proc.Script.ErrText), out...)
+	}
+	return out, err
+}
 
 // Environ mirrors exec.Cmd.Environ.
 func (c *Cmd) Environ() []string { return append([]string(nil), c.Env...) }
